@@ -277,6 +277,53 @@ type block struct {
 	pl, length int
 	alpha      []int
 	size       int
+	move       bool // the "move a callback" family instead of the plain enumeration
+}
+
+// moveSeq enumerates the family "register u1 and u2, remove one of them, register it
+// again with other constraints" (150 sequences of length 4 per pipeline):
+//
+//	u1: plain | Before(u2) | After(u2)
+//	u2: plain | Before(u1) | After(u1) | Before(main built-in) | After(main built-in)
+//	removed and registered again: u1 | u2
+//	new constraints: plain | Before(other) | After(other) | Before(main) | After(main)
+const moveCount = 3 * 5 * 2 * 5
+
+func moveSeq(p *pipeline, idx int) []step {
+	mainB := p.reduced[len(p.reduced)/2]
+	u1, u2 := userBase, userBase+1
+	con := func(k, other int) (uint8, uint8) {
+		switch k {
+		case 1:
+			return uint8(other), none
+		case 2:
+			return none, uint8(other)
+		case 3:
+			return uint8(mainB), none
+		case 4:
+			return none, uint8(mainB)
+		}
+		return none, none
+	}
+	c1 := idx % 3
+	idx /= 3
+	c2 := idx % 5
+	idx /= 5
+	which := idx % 2
+	idx /= 2
+	c3 := idx % 5
+	s1 := step{Op: opRegister, Name: uint8(u1)}
+	s1.Bef, s1.Aft = con(c1, u2)
+	s2 := step{Op: opRegister, Name: uint8(u2)}
+	s2.Bef, s2.Aft = con(c2, u1)
+	x, y := u1, u2
+	if which == 1 {
+		x, y = u2, u1
+	}
+	s3 := step{Op: opRemove, Name: uint8(x), Bef: none, Aft: none}
+	s4 := step{Op: opRegister, Name: uint8(x)}
+	s4.Bef, s4.Aft = con(c3, y)
+	return []step{s1, s2, s3, s4}
 }
 
 var blockCache = map[string][]block{}
@@ -299,6 +346,7 @@ func blocks(tier string) []block {
 			}
 			out = append(out, block{pl: pl, length: l, alpha: alpha, size: count(enumState{}, alpha, l)})
 		}
+		out = append(out, block{pl: pl, length: 4, size: moveCount, move: true})
 	}
 	blockCache[tier] = out
 	return out
@@ -1107,6 +1155,9 @@ func caseSeq(c *core.Ctx) (pl int, seq []step, origin string) {
 	idx := c.Case
 	for _, b := range blocks(c.Tier) {
 		if idx < b.size {
+			if b.move {
+				return b.pl, moveSeq(&pipelines[b.pl], idx), "exhaustive move-family"
+			}
 			return b.pl, decode(b.alpha, b.length, idx), fmt.Sprintf("exhaustive length %d", b.length)
 		}
 		idx -= b.size
@@ -1355,7 +1406,7 @@ var Engine = &core.Engine{
 	Level: "exploration",
 	Rule: "one case = one registration sequence on one of the six pipelines (Create, Query, Update, Delete, Row, Raw), applied to a fresh gorm handle and followed by a real execution of the pipeline against SQLite, twice: with the built-ins wrapped by recording functions (B) and on the pristine registry with the built-ins seen through driver events and model hooks (A). " +
 		"Calls: Register, Before(t).Register, After(t).Register, Before(t).After(t').Register, Replace, Remove; registered names: canonical fresh names or names removed earlier; targets t: every built-in of the pipeline, every user name introduced so far, the next name to be introduced (forward reference / unknown), '*'; Replace/Remove names: built-ins, user names, an unknown name. " +
-		"Enumerated completely: all sequences of length 0..2 on every pipeline (quick and thorough); thorough adds all sequences of length 3 with the built-in alphabet reduced to {first, main, last} built-in on Create/Update/Delete (full on Query/Row/Raw). Then random sequences of length 3..8 over 5 user names (forward and removed names as targets, unknown name, '*'): 5 000 quick / 300 000 thorough. " +
+		"Enumerated completely: all sequences of length 0..2 on every pipeline (quick and thorough); thorough adds all sequences of length 3 with the built-in alphabet reduced to {first, main, last} built-in on Create/Update/Delete (full on Query/Row/Raw). Also enumerated on every pipeline: the 150 'move' sequences of length 4 (register u1 and u2 with plain/Before/After constraints, remove one, register it again with other constraints). Then random sequences of length 3..8 over 5 user names (forward and removed names as targets, unknown name, '*', remove-and-register-again moves): 5 000 quick / 300 000 thorough. " +
 		"Ordering violations are classified by whether an order satisfying everything requested exists (side:*) or not (contradiction-accepted:*: the statement then demands an error return). distinct = (pipeline, literal sequence); non-trivial = no call returned an error, the pipeline ran, and at least one Before/After constraint with a running target, one removal or one replacement was checked against the firing order",
 	Assumptions: []string{
 		"a registration under a name that exists at that moment (duplicate Register without Replace, including built-in names) is not generated: the statement only speaks of Replace for an existing name",
